@@ -211,16 +211,24 @@ FN_ORACLES["kstwo.sf"] = dict(coq="o_kstwo_sf", ty="num A -> num A -> num A", pa
 # SciPy's private exact-p-value routines; None = the call raised FloatingPointError / OverflowError under np.errstate
 FN_ORACLES["_compute_prob_outside_square"] = dict(coq="o_prob_outside_square", ty="Z -> Z -> option (num A)", params=["n", "h"], ptypes=[_f.INT, _f.INT], ret=_f.opt(_f.NUM))
 FN_ORACLES["_compute_outer_prob_inside_method"] = dict(coq="o_outer_prob_inside", ty="Z -> Z -> Z -> Z -> option (num A)", params=["m", "n", "g", "h"], ptypes=[_f.INT, _f.INT, _f.INT, _f.INT], ret=_f.opt(_f.NUM))
+_KU = "frouros/detectors/data_drift/batch/statistical_test/kuiper_test.py"
+FN_UNITS += [
+    dict(name="kuiper_kuiper", file=_KU, cls="KuiperTest", fn="_kuiper", params=dict(X=_VN, Y=_VN)),
+]
+# scipy.stats.ks_2samp(data1=, data2=, alternative="two-sided") read as the pair (statistic, pvalue); the constant option is part of what the oracle stands for
+FN_ORACLES["ks_2samp"] = dict(coq="o_ks_2samp_two_sided", ty="list (num A) -> list (num A) -> num A * num A", params=["data1", "data2"], ptypes=[_VN, _VN], ret=_f.tup(_f.NUM, _f.NUM), const_kw={"alternative": "two-sided"})
+# KuiperTest._false_positive_probability(D, N): modelled in full in Model/Tests.v (kuiper_fpp), uninterpreted here
+FN_ORACLES["KuiperTest._false_positive_probability"] = dict(coq="o_kuiper_fpp", ty="num A -> num A -> num A", params=["D", "N"], ptypes=[_f.NUM, _f.NUM], ret=_f.NUM)
 FN_CONSTS = [(_PT, ["MAX_NUM_PERM"])]
 FN_CONSTS_IKS = [(_IK, ["MAX_AUTO_N"])]
-EQ.update({"C20": ["EqData.v"], "C11": ["EqIKS.v"]})
+EQ.update({"C20": ["EqData.v"], "C11": ["EqIKS.v"], "C12": ["EqKuiper.v"]})
 EQ.update({"C10": ["EqDist.v"]})
 # property -> Eq files that are compiled against GFn.v
 EQ.update({"C13": ["EqPerm.v"]})
 
 
 # which units GFn.v holds when it is generated for one property's equivalence files (all of them for None)
-FN_FOR = {"C13": ("perm_",), "C10": ("dist_",), "C20": ("sea_", "dummy_"), "C11": ("iks_",)}
+FN_FOR = {"C13": ("perm_",), "C10": ("dist_",), "C20": ("sea_", "dummy_"), "C11": ("iks_",), "C12": ("kuiper_",)}
 
 
 def translate_fns(repo, pid=None):
